@@ -179,24 +179,24 @@ var lastEnv *env
 
 type env struct {
 	colonRepos bool
-	probe   atomic.Pointer[barrier]
-	caseIdx int
-	rng     *rand.Rand
-	phase   string
-	flavour string
-	force   bool
-	world   *authmodel.World
-	regs    []*regSpec
-	client  *auth.Client
-	corrN   atomic.Int64
-	res     *worker.Result
-	resMu   sync.Mutex
-	gate    *gate
-	hooks   atomic.Int64
-	repos   []string
-	ops     []string // op log for witnesses
-	violN   int
-	stop    bool // a violation was recorded: stop the case
+	probe      atomic.Pointer[barrier]
+	caseIdx    int
+	rng        *rand.Rand
+	phase      string
+	flavour    string
+	force      bool
+	world      *authmodel.World
+	regs       []*regSpec
+	client     *auth.Client
+	corrN      atomic.Int64
+	res        *worker.Result
+	resMu      sync.Mutex
+	gate       *gate
+	hooks      atomic.Int64
+	repos      []string
+	ops        []string // op log for witnesses
+	violN      int
+	stop       bool // a violation was recorded: stop the case
 }
 
 var hostPool = []string{"reg-a.test", "reg-b.test:5000", "reg-b.test", "reg-c.test:443", "localhost:5000", "10.0.0.7:8443", "registry.example.org"}
